@@ -205,6 +205,7 @@ def c_finder_find(eng, st, fr, f, args, site):
         return None
     _, nb, noff, nlen = fd.fields[0]
     # Some(i): i + len(needle) <= len(haystack) ; first occurrence
+    eng.events.append(("find", nb, vw["base"], repr(vw["off"]), repr(vw["len"]), "first" if f["path"].endswith("::find") else "last", site["fr"].path))
     i = eng.fresh_int("found", 64, False, 0, eng.len_max)
     outs = []
     ns = st.fork()
